@@ -13,7 +13,16 @@ def build_split(rng, depth, prefix, rel_dir):
     own = printer.gen_items(rng, prefix=prefix, allow_services=True)
     items, flat, files = [], [], {}
     nmods = rng.randint(0, 2) if depth > 0 else 0
+    lead = []
+    if depth > 0 and rng.random() < 0.25:
+        # the file begins with declarations that need nothing declared before them (devices, services) and imports its first module
+        # right after them, before any type of its own
+        lead = [it for it in own if it[0] in ("device", "service")] or [("device", f"{prefix}lead_dev", [("id", 3)])]
+        own = lead + [it for it in own if it not in lead]
+        nmods = max(nmods, 1)
     positions = sorted(rng.sample(range(len(own) + 1), min(nmods, len(own) + 1)))
+    if lead:
+        positions = sorted(set([len(lead)] + positions[1:]))
     k = 0
     for i in range(len(own) + 1):
         while k < len(positions) and positions[k] == i:
